@@ -1,8 +1,8 @@
 # C07 - a rejected handshake message never wedges the handshake (see DESIGN.md section 4)
 CHECK = {
-    "pkg": "handshake", "files": ["handshake/hsgen_test.go", "handshake/c07_test.go"], "run": "^TestC07",
+    "pkg": "handshake", "files": ["handshake/hsgen_test.go", "handshake/c07_test.go", "handshake/c07_fuzz_test.go"], "run": "^TestC07",
     "quick": {"scale": 1, "shards": 1, "timeout": 300},
-    "thorough": {"scale": 12, "shards": 8, "timeout": 900},
+    "thorough": {"scale": 20, "shards": 8, "timeout": 900, "fuzz": [{"target": "FuzzC07", "seconds": 60}]},
     "rule": "per case a real IX session (curve x cipher x cert versions x target machine initiator/responder) whose target "
             "receives 1..5 pre-messages derived from the genuine message (every truncation length, edge truncations, bit "
             "flips in header/E/S/payload, E replaced by low-order or invalid points or by a fresh valid point, stage-1/stage-2 "
@@ -16,6 +16,6 @@ CHECK = {
         "a pre-message the Machine accepts (unauthenticated IX stage 1, header bytes outside the Noise transcript) is not a rejection; the case ends there",
         "the twin is a separate session with the same credentials and configuration (a Machine cannot be cloned); 'exactly as if' = completes, same peer certificate, keys pair with the real peer, indexes mirrored",
     ],
-    "engine": "E-pure",
-    "technique": "rapid differential (session with adversarial pre-messages vs twin) + exhaustive truncation sweep",
+    "engine": "E-pure + E-fuzz",
+    "technique": "rapid differential (session with adversarial pre-messages vs twin) + exhaustive truncation sweep + native fuzz target whose input is a mutation recipe applied to the genuine message",
 }
